@@ -79,6 +79,17 @@ def constant_fold_expr(expr: Expression, cur_mod_id: str) -> ConstantValue | Non
 def constant_fold_binary_op(
     op: str, left: ConstantValue, right: ConstantValue
 ) -> ConstantValue | None:
+    try:
+        return _constant_fold_binary_op(op, left, right)
+    except OverflowError:
+        # For example, an int operand or result that doesn't fit in a float, or a sequence
+        # repeat count that is too large. The operation fails at runtime as well.
+        return None
+
+
+def _constant_fold_binary_op(
+    op: str, left: ConstantValue, right: ConstantValue
+) -> ConstantValue | None:
     if isinstance(left, int) and isinstance(right, int):
         return constant_fold_binary_int_op(op, left, right)
 
